@@ -427,3 +427,87 @@ func DumpFacts(p *Prog, fn *ssa.Function) string {
 }
 
 var _ = token.NoPos
+
+// Via: every path from a `from` site to a `to` site passes a `via` site
+// (the `to` site is not reachable from `from` once `via` sites are barriers).
+func (c *Ctx) Via(fnName string, from, to, via Sel) bool {
+	rule := "via"
+	construct := fmt.Sprintf("%s: from [%s] to [%s] only through [%s]", fnName, from.Name, to.Name, via.Name)
+	fn, ins := c.sites(rule, fnName, from)
+	if ins == nil {
+		return false
+	}
+	tos := to.F(c.P, fn)
+	vias := via.F(c.P, fn)
+	if len(tos) == 0 || len(vias) == 0 {
+		c.Undecided(rule, construct, fmt.Sprintf("%d target site(s), %d via site(s)", len(tos), len(vias)))
+		return false
+	}
+	for _, in := range ins {
+		if t, reach := canReach(posOf(in), false, instrSet(tos), instrSet(vias)); reach {
+			c.Fail(rule, construct, InstrPos(in), fmt.Sprintf("`%s` (%s) is reachable from `%s` without passing [%s]", DescribeInstr(t), c.P.Pos(InstrPos(t)), DescribeInstr(in), via.Name))
+			return false
+		}
+	}
+	c.OK(rule, construct, fmt.Sprintf("%d start, %d target, %d via site(s)", len(ins), len(tos), len(vias)))
+	return true
+}
+
+// EveryCyclePasses: every CFG cycle that contains a selected site's block also
+// has to pass one of the selected sites, i.e. no loop iteration around those
+// sites can skip all of them (a `continue` that bypasses the step).
+func (c *Ctx) EveryCyclePasses(fnName string, sel Sel) bool {
+	rule := "every-iteration"
+	construct := fmt.Sprintf("%s: every iteration of the loop around [%s] passes it", fnName, sel.Name)
+	fn, ins := c.sites(rule, fnName, sel)
+	if ins == nil {
+		return false
+	}
+	sb := map[*ssa.BasicBlock]bool{}
+	for _, in := range ins {
+		sb[in.Block()] = true
+	}
+	reach := func(from *ssa.BasicBlock, avoid map[*ssa.BasicBlock]bool) map[*ssa.BasicBlock]bool {
+		seen := map[*ssa.BasicBlock]bool{}
+		var walk func(b *ssa.BasicBlock)
+		walk = func(b *ssa.BasicBlock) {
+			for _, s := range b.Succs {
+				if seen[s] || avoid[s] {
+					continue
+				}
+				seen[s] = true
+				walk(s)
+			}
+		}
+		walk(from)
+		return seen
+	}
+	inLoop := false
+	for b := range sb {
+		fromS := reach(b, nil)
+		if !fromS[b] {
+			continue // this site is not in a loop
+		}
+		inLoop = true
+		for _, other := range fn.Blocks {
+			if sb[other] || !fromS[other] {
+				continue
+			}
+			// other is reachable from the site; is it in the same loop (reaches the site back)?
+			if !reach(other, nil)[b] {
+				continue
+			}
+			// a cycle through other that avoids every site block?
+			if reach(other, sb)[other] {
+				c.Fail(rule, construct, InstrPos(firstInstr(other)), "a cycle of this loop avoids every selected site (an iteration can skip the step)")
+				return false
+			}
+		}
+	}
+	if !inLoop {
+		c.Undecided(rule, construct, "the selected sites are not inside a loop")
+		return false
+	}
+	c.OK(rule, construct, fmt.Sprintf("%d site(s)", len(ins)))
+	return true
+}
